@@ -12,7 +12,12 @@ RULE = ("generated: (a) every sequence of 1..4 binary operators from {* / % + - 
         "tuples (exhaustive), (b) Hypothesis expression ASTs (depth<=5, unary -/~ chains, parentheses, random "
         "spacing, 64-bit boundary operands, every documented literal spelling) emitted through .dc64/.dc32 on "
         "little/big endian CPUs and compared with an independent reference evaluator, (c) valueless expressions "
-        "(zero divisor literal/computed, malformed) that must be rejected with a diagnostic. non-trivial = "
+        "(zero divisor literal/computed, malformed) that must be rejected with a diagnostic, (d) operand contexts: "
+        "Hypothesis expressions steered to a target value t (by appending -K/+K computed from the reference value) and "
+        "written into .org/.resb/.set/.db/.dw lists/equ and instruction immediates with encodings known from the manuals "
+        "(msp430 #imm/&abs/x(Rn), 68000 move.l #, riscv addi, z80 ld hl, 6502 lda #, arm mov #, avr8 ldi, 8051 mov a,#): the "
+        "image must be the one the value t denotes; and into the numeric hole of tests/comparison instruction templates "
+        "of every CPU with a corpus: same bytes as the same statement with the plain literal t. non-trivial = "
         ">=3 distinct precedence levels in one expression, or a boundary operand (>=2^31), or valueless; "
         "distinct key = (operator sequences per parenthesis level, class)")
 
@@ -444,6 +449,46 @@ def part_hyp(ck, seed, n_examples):
     hyp_run(test, batch(), n_examples, seed, s)
 
 
+def part_ctx(ck, seed, shard, nshards, tier):
+    """operand contexts (pyprops/c04ctx.py): direct oracles and literal-vs-expression differential"""
+    import c04ctx, c02, progs
+    s = ck.s
+    cx = c04ctx.Ctx(ck)
+    try:
+        cx.selftest()
+    except Violation as v:
+        s.violations.append(v.payload)
+        return
+    for name, why in cx.disabled.items():
+        s.notes.append("direct context %s not used: %s" % (name, why))
+    hyp_run(cx.check_direct, c04ctx.direct_case(), 250 if tier == "quick" else 6000, seed, s)
+    cpus = [c for i, c in enumerate(c02.CPUS) if i % nshards == shard]
+    cache = {}
+
+    def tpls(cpu):
+        if cpu not in cache:
+            cache[cpu] = cx.diff_templates(cpu, 40 if tier == "quick" else 400)
+        return cache[cpu]
+
+    @st.composite
+    def diff_case(draw):
+        cpu = draw(st.sampled_from(cpus))
+        ti = draw(st.integers(0, 10000))
+        ex = [(draw(c04ctx.ctx_expr(True, True)), draw(st.integers(0, 1 << 30))) for _ in range(draw(st.integers(2, 5)))]
+        return (cpu, ti, ex)
+
+    def test(case):
+        cpu, ti, ex = case
+        tl = tpls(cpu)
+        if not tl:
+            return
+        t, span, key = tl[ti % len(tl)]
+        cx.check_diff(cpu, progs.CPU_FILES.get(cpu, cpu), t, span, key, ex)
+
+    if cpus:
+        hyp_run(test, diff_case(), 60 if tier == "quick" else 2500, seed + 1, s)
+
+
 def run(tier, seed, shard, nshards):
     s = Stats()
     w = Worker("c04")
@@ -463,6 +508,7 @@ def run(tier, seed, shard, nshards):
             s.violations.append(v.payload)
         n = 400 if tier == "quick" else 12000
         part_hyp(ck, shard_seed(seed, shard, "c04"), n)
+        part_ctx(ck, shard_seed(seed, shard, "c04ctx"), shard, nshards, tier)
     finally:
         w.close()
     return s
@@ -474,10 +520,16 @@ def replay(payload):
     w = Worker("c04r")
     ck = Checker(s, w)
     ck.known = []
-    cpu = [c for c in CPUS if c[0] == payload["cpu"]][0]
+    cpu = ([c for c in CPUS if c[0] == payload["cpu"]] or [CPUS[0]])[0]
     try:
         kind = payload["kind"]
-        if kind in ("wrong_value", "rejected", "crash", "hang"):
+        if payload.get("part") == "ctx_direct":
+            import c04ctx
+            c04ctx.Ctx(ck).replay_direct(payload)
+        elif payload.get("part") == "ctx_diff":
+            import c04ctx
+            c04ctx.Ctx(ck).replay_diff(payload)
+        elif kind in ("wrong_value", "rejected", "crash", "hang"):
             v = payload["expected"]["value"] if isinstance(payload["expected"], dict) else payload["expected"]
             ck.check_valid(cpu, payload["width"], [(None, payload["text"], v)])
         else:
